@@ -105,6 +105,13 @@ func (s *Session) removeTransaction(transactionID string) error {
 	return ErrTransactionNotFound
 }
 
+// HasTransactions reports whether the session has ongoing transactions
+func (s *Session) HasTransactions() bool {
+	s.mux.RLock()
+	defer s.mux.RUnlock()
+	return len(s.transactions) > 0
+}
+
 func (s *Session) CloseDocumentReaders() error {
 	s.mux.Lock()
 	defer s.mux.Unlock()
